@@ -1243,9 +1243,10 @@ func (m *membershipAllower) membershipAllowedSelf() error { // nolint: gocyclo
 			return nil
 		}
 
-		// A user that is not in the room is allowed to join if the room
-		// join rules are "public".
-		if m.oldMember.Membership == spec.Leave && m.joinRule.JoinRule == spec.Public {
+		// A user that is not banned (checked above) is allowed to join if
+		// the room join rules are "public", whatever their current membership
+		// (e.g. after knocking on a room that has since become public).
+		if m.joinRule.JoinRule == spec.Public {
 			return nil
 		}
 
